@@ -176,9 +176,23 @@ def b_symmetries(ctx):
     from contracts.rainflow_bounded import run, signals, DETECTORS
     from specs.rainflow_spec import TP
     A, N = (4, 6) if ctx.tier == 'quick' else (4, 8)
-    ctx.bound = f"all signals over {{0..{A-1}}} of length 2..{N}; negation; maps 2x+1, 0.5x-3; scaling by 1e-9 and 1e9; every single insertion of a non-reversal sample (repeat of a neighbour, midpoint of a strictly monotone step, or 5e-9 away from either end of it); 4 index types"
+    ctx.bound = f"all signals over {{0..{A-1}}} of length 2..{N}; negation (also of the signal shifted by -1 and -2, and for the FKM detector of all length-7 signals over {{-3,-1,0,1}} without repeated neighbours); maps 2x+1, 0.5x-3; scaling by 1e-9 and 1e9; every single insertion of a non-reversal sample (repeat of a neighbour, midpoint of a strictly monotone step, or 5e-9 away from either end of it); 4 index types"
     ctx.rule = "non-trivial: signal with >= 1 turning point; distinct by (signal, transformation)"
     ctx.exhaustive = True
+    # negation of longer sign-changing signals for the FKM detector (its rule compares absolute values; a negative extreme tying with an earlier positive one
+    # followed by a new extreme needs seven samples): all signals of length 7 over {-3, -1, 0, 1}
+    import itertools
+    for sig in itertools.product((-3.0, -1.0, 0.0, 1.0), repeat=7):
+        if not ctx.mine():
+            continue
+        if any(a == b for a, b in zip(sig[:-1], sig[1:])):
+            continue
+        rs, _, _ = run('fkm', [list(sig)])
+        r, _, _ = run('fkm', [[-v for v in sig]])
+        ctx.case(True)
+        if [v + 0.0 for v in r['from']] != [-v + 0.0 for v in rs['from']] or [v + 0.0 for v in r['to']] != [-v + 0.0 for v in rs['to']] \
+                or [v + 0.0 for v in r['residuals']] != [-v + 0.0 for v in rs['residuals']]:
+            ctx.fail('C03:negation:fkm', f'fkm: negating {list(sig)} does not negate the result', {'signal': list(sig), 'detector': 'fkm'})
     for s in signals(A, N, 2):
         if not ctx.mine():
             continue
@@ -186,14 +200,18 @@ def b_symmetries(ctx):
         nt = len(TP(s)) > 0
         for det in DETECTORS:
             ref, _, _ = run(det, [x])
-            # negation
-            r, _, _ = run(det, [[-v for v in x]])
-            ctx.case(nt)
-            neg = dict(ref)
-            for key in ('from', 'to', 'residuals'):
-                neg[key] = [-v + 0.0 for v in ref[key]]
-            if {k: [v + 0.0 for v in r[k]] if k in ('from', 'to', 'residuals') else r[k] for k in r} != neg:
-                ctx.fail(f'C03:negation:{det}', f'{det}: negating {list(s)} does not negate the result', {'signal': list(s), 'detector': det})
+            # negation (also of the signal shifted to both sides of zero: the FKM rule compares absolute values, ties between a negative and a positive
+            # extreme only occur in signals that change sign - added after seed C03-c)
+            for shift in (0.0, -1.0, -2.0):
+                xs = [v + shift for v in x]
+                rs, _, _ = (ref, None, None) if shift == 0.0 else run(det, [xs])
+                r, _, _ = run(det, [[-v for v in xs]])
+                ctx.case(nt)
+                neg = dict(rs)
+                for key in ('from', 'to', 'residuals'):
+                    neg[key] = [-v + 0.0 for v in rs[key]]
+                if {k: [v + 0.0 for v in r[k]] if k in ('from', 'to', 'residuals') else r[k] for k in r} != neg:
+                    ctx.fail(f'C03:negation:{det}', f'{det}: negating {xs} does not negate the result', {'signal': xs, 'detector': det})
             if det != 'fkm':
                 for al, be in ((2.0, 1.0), (0.5, -3.0)):
                     r, _, _ = run(det, [[al * v + be for v in x]])
